@@ -17,6 +17,217 @@ def norm(s):
     return re.sub(r'\s+', ' ', s).strip()
 
 
+# ---------------------------------------------------------------------------------------------------------------
+# translator for integer expressions of C (int64_t arithmetic) into Gallina over Z: every operation that can wrap is
+# put under `w` (= wrap64); `/` is Z.quot, `%` is Z.rem (C truncating division).  Names: r->start, r->stop, r->step,
+# Range_Len(r) (= n) and the locals bound so far.
+class CExprError(Exception):
+    pass
+
+
+def _tokens(text):
+    toks = re.findall(r'r->\w+|Range_Len\(r\)|\(\s*(?:int64_t|size_t|uint64_t)\s*\)|[A-Za-z_]\w*|\d+|[-+*/%()]', text)
+    if ''.join(toks).replace(' ', '') != re.sub(r'\s+', '', text):
+        raise CExprError('untranslatable text: ' + text)
+    return [t for t in toks if not re.match(r'\(\s*(?:int64_t|size_t|uint64_t)\s*\)$', t)]      # casts between 64-bit types: identity on the box
+
+
+def cexpr(text, env):
+    toks = _tokens(text)
+    pos = [0]
+
+    def peek():
+        return toks[pos[0]] if pos[0] < len(toks) else None
+
+    def take():
+        t = peek(); pos[0] += 1
+        return t
+
+    def atom():
+        t = take()
+        if t is None:
+            raise CExprError('unexpected end')
+        if t == '(':
+            e = add()
+            if take() != ')':
+                raise CExprError('missing )')
+            return e
+        if t == '-':
+            return '(w (- %s))' % atom()
+        if t == '+':
+            return atom()
+        if re.match(r'\d+$', t):
+            return t
+        if t in env:
+            return env[t]
+        raise CExprError('unknown name ' + t)
+
+    def mul():
+        e = atom()
+        while peek() in ('*', '/', '%'):
+            op = take(); f = atom()
+            e = {'*': '(w (%s * %s))', '/': '(w (Z.quot %s %s))', '%': '(Z.rem %s %s)'}[op] % (e, f)
+        return e
+
+    def add():
+        e = mul()
+        while peek() in ('+', '-'):
+            op = take(); f = mul()
+            e = '(w (%s %s %s))' % (e, op, f)
+        return e
+
+    e = add()
+    if peek() is not None:
+        raise CExprError('trailing ' + str(peek()))
+    return e
+
+
+def translate_range_last(b):
+    """Range_Iter_Last in the repaired structure: locals, the guard `len == 0 -> Terminal`, one assignment to i->val per
+    sign of step, return i.  -> (gallina for step > 0, gallina for step < 0) or None"""
+    t = norm(b)
+    m = re.match(r'\{ struct Range\* r = self; struct Int\* i = r->value; (.*) return i; \}$', t)
+    if not m:
+        return None
+    rest = m.group(1)
+    env = {'r->start': 'start', 'r->stop': 'stop', 'r->step': 'step', 'Range_Len(r)': 'n'}
+    guard = False; posx = negx = None
+    try:
+        while rest:
+            mm = re.match(r'int64_t (\w+) = ([^;{}]+); ?', rest)
+            if mm and not posx and not negx:
+                env[mm.group(1)] = cexpr(mm.group(2), env); rest = rest[mm.end():]; continue
+            mm = re.match(r'if \((\w+|Range_Len\(r\)) == 0\) \{ return Terminal; \} ?', rest)
+            if mm and env.get(mm.group(1)) == 'n':
+                guard = True; rest = rest[mm.end():]; continue
+            mm = re.match(r'if \(r->step ([<>]) 0\) \{ i->val = ([^;{}]+); \} ?', rest)
+            if mm and guard:
+                e = cexpr(mm.group(2), env)
+                if mm.group(1) == '>' and posx is None: posx = e
+                elif mm.group(1) == '<' and negx is None: negx = e
+                else: return None
+                rest = rest[mm.end():]; continue
+            return None
+    except CExprError:
+        return None
+    return (posx, negx) if guard and posx and negx else None
+
+
+# ---------------------------------------------------------------------------------------------------------------
+# Slice_Iter_Init/Next/Last/Prev as plans
+SLICE_PLANS = {
+    'Slice_Iter_Init': {'guard': 'Range_Iter_Init(r)', '+': ('init', 'r->start', 'next'), '-': ('last', '(int64_t)len(s->iter)-r->stop', 'prev')},
+    'Slice_Iter_Next': {'guard': 'Range_Iter_Next(r,NULL)', '+': ('curr', 'r->step', 'next'), '-': ('curr', '-r->step', 'prev')},
+    'Slice_Iter_Last': {'guard': 'Range_Iter_Last(r)', '+': ('last', '(int64_t)len(s->iter)-1-pos', 'prev'), '-': ('init', 'pos', 'next')},
+    'Slice_Iter_Prev': {'guard': 'Range_Iter_Prev(r,NULL)', '+': ('curr', 'r->step', 'prev'), '-': ('curr', '-r->step', 'next')},
+}
+SLICE_WALK = ('{ while (count-- > 0) { curr = dir > 0 ? iter_next(s->iter, curr) : iter_prev(s->iter, curr); } return curr; }')
+
+
+def _nosp(t):
+    return re.sub(r'\s+', '', t)
+
+
+def _sign_eval(expr, sign):
+    """value of an expression of the shape `r->step > 0 ? A : B` (or without a conditional) under step > 0 / step < 0"""
+    m = re.match(r'^r->step\s*>\s*0\s*\?\s*(.+?)\s*:\s*(.+)$', expr.strip())
+    if m:
+        return (m.group(1) if sign == '+' else m.group(2)).strip()
+    m = re.match(r'^r->step\s*<\s*0\s*\?\s*(.+?)\s*:\s*(.+)$', expr.strip())
+    if m:
+        return (m.group(2) if sign == '+' else m.group(1)).strip()
+    return expr.strip()
+
+
+def _dir_of(expr, sign):
+    e = _nosp(_sign_eval(expr, sign))
+    if e in ('1', '+1'): return 'next'
+    if e == '-1': return 'prev'
+    if e == 'r->step': return 'next' if sign == '+' else 'prev'      # dir > 0 <=> step > 0
+    if e == '-r->step': return 'prev' if sign == '+' else 'next'
+    return None
+
+
+def _split_args(t):
+    out, depth, cur = [], 0, ''
+    for ch in t:
+        if ch == '(': depth += 1
+        if ch == ')': depth -= 1
+        if ch == ',' and depth == 0:
+            out.append(cur); cur = ''
+        else:
+            cur += ch
+    out.append(cur)
+    return [x.strip() for x in out]
+
+
+def slice_plans(it, body):
+    bs = {f: body(it, f) for f in SLICE_PLANS}
+    if not all(bs.values()):
+        return None
+    if not any('Range_Iter' in b for b in bs.values()):
+        return 'pre-repair'
+    helper = body(it, 'Slice_Walk')
+    if helper is not None and norm(helper) != SLICE_WALK:
+        return None
+    out = {}
+    for f, b in bs.items():
+        t = norm(b)
+        m = re.match(r'\{ struct Slice\* s = self; struct Range\* r = s->range; (.*) \}$', t)
+        if not m:
+            return None
+        rest = m.group(1)
+        plan = {}
+        # the guard on the Slice's own Range cursor
+        g = re.match(r'if \((Range_Iter_\w+\(r(?:, NULL)?\)) is Terminal\) \{ return Terminal; \} ?', rest)
+        if g:
+            plan['guard'] = _nosp(g.group(1)); rest = rest[g.end():]
+        else:
+            g = re.match(r'var last = (Range_Iter_Last\(r\)); if \(last is Terminal\) \{ return Terminal; \} int64_t pos = c_int\(last\); ?', rest)
+            if not g:
+                return None
+            plan['guard'] = _nosp(g.group(1)); rest = rest[g.end():]
+        start = {'iter_init(s->iter)': 'init', 'iter_last(s->iter)': 'last', 'curr': 'curr'}
+        cur_is = 'curr' if f in ('Slice_Iter_Next', 'Slice_Iter_Prev') else None
+        while rest:
+            # if (r->step >|< 0) { ... }
+            mm = re.match(r'if \(r->step ([<>]) 0\) \{ ', rest)
+            if mm:
+                sign = '+' if mm.group(1) == '>' else '-'
+                depth, j = 1, mm.end()
+                while j < len(rest) and depth:
+                    depth += rest[j] == '{'; depth -= rest[j] == '}'; j += 1
+                blk = rest[mm.end():j - 1].strip(); rest = rest[j:].strip()
+                st = cur_is
+                d0 = re.match(r'var curr = (iter_init\(s->iter\)|iter_last\(s->iter\)); ?', blk)
+                if d0:
+                    st = start[d0.group(1)]; blk = blk[d0.end():]
+                lp = re.match(r'for ?\(int64_t i = 0; i < (.+?); i\+\+\) \{ curr = iter_(next|prev)\(s->iter, curr\); \}( return curr;)?$', blk)
+                if lp and st and (bool(lp.group(3)) == (cur_is is None)):
+                    plan[sign] = (st, _nosp(lp.group(1)), lp.group(2)); continue
+                cw = re.match(r'return Slice_Walk\((.*)\);$', blk)
+                if cw and helper is not None:
+                    a = _split_args(cw.group(1))
+                    if len(a) == 4 and a[0] == 's' and (a[1] in start) and (a[1] != 'curr' or st) and _dir_of(a[3], sign):
+                        plan[sign] = (start[a[1]] if a[1] != 'curr' else st, _nosp(_sign_eval(a[2], sign)), _dir_of(a[3], sign)); continue
+                return None
+            cw = re.match(r'return Slice_Walk\((.*)\);$', rest)
+            if cw and helper is not None and cur_is:
+                a = _split_args(cw.group(1))
+                if len(a) != 4 or a[0] != 's' or a[1] != 'curr':
+                    return None
+                for sign in '+-':
+                    if sign in plan or not _dir_of(a[3], sign):
+                        return None
+                    plan[sign] = ('curr', _nosp(_sign_eval(a[2], sign)), _dir_of(a[3], sign))
+                rest = ''; continue
+            if rest in ('return curr;', 'return Terminal;'):
+                rest = ''; continue
+            return None
+        out[f] = plan
+    return out
+
+
 def generate(repo, emit, src, func_body):
     it, arr, tup, tab, tree = (src('src/' + f) for f in ('Iter.c', 'Array.c', 'Tuple.c', 'Table.c', 'Tree.c'))
 
@@ -54,11 +265,19 @@ def generate(repo, emit, src, func_body):
         emit('iter_range_len_guard', 'Definition iter_range_len_guard : bool := false.   (* Range_Len: pre-repair text *)')
     else:
         emit('iter_range_len_guard', None)
-    flag('iter_range_last_aligned', body(it, 'Range_Iter_Last'),
-         [r'int64_t\s+n\s*=\s*Range_Len\(r\)', r'if\s*\(n\s*==\s*0\)\s*\{\s*return\s+Terminal',
-          r'i->val\s*=\s*r->start\s*\+\s*r->step\s*\*\s*\(n-1\)', r'i->val\s*=\s*r->stop-1\s*\+\s*r->step\s*\*\s*\(n-1\)'],
-         [r'if\s*\(r->step\s*>\s*0\)\s*\{\s*i->val\s*=\s*r->stop-1;', r'if\s*\(r->step\s*<\s*0\)\s*\{\s*i->val\s*=\s*r->start;'],
-         'Range_Iter_Last')
+    # Range_Iter_Last: TRANSLATED, not matched: the two expressions assigned to i->val become Gallina functions and
+    # IterProofs.source_range_last_ok proves that on the box they are first + step*(len-1)
+    b = body(it, 'Range_Iter_Last')
+    tr = translate_range_last(b) if b else None
+    defs = lambda p, n: ('Definition iter_range_last_pos (w : Z -> Z) (start stop step n : Z) : Z := (%s)%%Z.\n'
+                         'Definition iter_range_last_neg (w : Z -> Z) (start stop step n : Z) : Z := (%s)%%Z.' % (p, n))
+    if tr:
+        emit('iter_range_last_aligned', 'Definition iter_range_last_aligned : bool := true.   (* Range_Iter_Last: guard on len, then the translated expressions *)\n' + defs(*tr))
+    elif b and re.search(r'if\s*\(r->step\s*>\s*0\)\s*\{\s*i->val\s*=\s*r->stop-1;', b) and re.search(r'if\s*\(r->step\s*<\s*0\)\s*\{\s*i->val\s*=\s*r->start;', b) \
+            and 'Range_Len' not in b:
+        emit('iter_range_last_aligned', 'Definition iter_range_last_aligned : bool := false.   (* Range_Iter_Last: pre-repair text *)\n' + defs('0', '0'))
+    else:
+        emit('iter_range_last_aligned', None)
     flag('iter_range_get_checked', body(it, 'Range_Get'),
          [r'int64_t\s+n\s*=\s*Range_Len\(r\)', r'i\s*=\s*i\s*<\s*0\s*\?\s*n\+i\s*:\s*i',
           r'r->step\s*>\s*0\s+and\s+i\s*>=\s*0\s+and\s+i\s*<\s*n', r'r->step\s*<\s*0\s+and\s+i\s*>=\s*0\s+and\s+i\s*<\s*n'],
@@ -67,21 +286,14 @@ def generate(repo, emit, src, func_body):
     flag('iter_slice_arg_signed', body(it, 'Slice_Arg'),
          [r'a\s*=\s*a\s*<\s*0\s*\?\s*\(int64_t\)n\+a\s*:\s*a', r'a\s*=\s*a\s*>\s*\(int64_t\)n\s*\?\s*\(int64_t\)n\s*:\s*a', r'a\s*=\s*a\s*<\s*0\s*\?\s*0\s*:\s*a'],
          [r'a\s*=\s*a\s*<\s*0\s*\?\s*n\+a\s*:\s*a', r'a\s*=\s*a\s*>\s*n\s*\?\s*n\s*:\s*a', r'a\s*=\s*a\s*<\s*0\s*\?\s*0\s*:\s*a'], 'Slice_Arg')
-    # Slice walk: all four functions consult the Slice's own Range cursor, or none does
-    fs = [('Slice_Iter_Init', r'if\s*\(Range_Iter_Init\(r\)\s+is\s+Terminal\)\s*\{\s*return\s+Terminal'),
-          ('Slice_Iter_Next', r'if\s*\(Range_Iter_Next\(r,\s*NULL\)\s+is\s+Terminal\)\s*\{\s*return\s+Terminal'),
-          ('Slice_Iter_Last', r'var\s+last\s*=\s*Range_Iter_Last\(r\);\s*if\s*\(last\s+is\s+Terminal\)\s*\{\s*return\s+Terminal;\s*\}\s*int64_t\s+pos\s*=\s*c_int\(last\)'),
-          ('Slice_Iter_Prev', r'if\s*\(Range_Iter_Prev\(r,\s*NULL\)\s+is\s+Terminal\)\s*\{\s*return\s+Terminal')]
-    bs = [body(it, f) for f, _ in fs]
-    if all(bs):
-        hits = [bool(re.search(r, b)) for (f, r), b in zip(fs, bs)]
-        uses = ['Range_Iter' in b for b in bs]
-        if all(hits) and re.search(r'len\(s->iter\)-1-pos', bs[2]) and re.search(r'i\s*<\s*pos;', bs[2]):
-            emit('iter_slice_bounded', 'Definition iter_slice_bounded : bool := true.   (* Slice walk: repaired text *)')
-        elif not any(uses):
-            emit('iter_slice_bounded', 'Definition iter_slice_bounded : bool := false.   (* Slice walk: pre-repair text *)')
-        else:
-            emit('iter_slice_bounded', None)
+    # Slice walk: each of the four functions is read as a PLAN: the guard on the Slice's own Range cursor, then per sign
+    # of step (where to start: iter_init / iter_last / the cursor handed in; how many steps; iter_next or iter_prev).
+    # The loops may be written out or go through the helper Slice_Walk(s, curr, count, dir); same plan = same model.
+    plans = slice_plans(it, body)
+    if plans == 'pre-repair':
+        emit('iter_slice_bounded', 'Definition iter_slice_bounded : bool := false.   (* Slice walk: pre-repair text *)')
+    elif plans == SLICE_PLANS:
+        emit('iter_slice_bounded', 'Definition iter_slice_bounded : bool := true.   (* Slice walk: the plan of the repaired code *)')
     else:
         emit('iter_slice_bounded', None)
     b = body(it, 'Zip_Iter_Last')
@@ -93,13 +305,33 @@ def generate(repo, emit, src, func_body):
         emit('iter_zip_last_aligned', 'Definition iter_zip_last_aligned : bool := false.   (* Zip_Iter_Last: pre-repair text *)')
     else:
         emit('iter_zip_last_aligned', None)
+    # Table_Iter_Next / Table_Iter_Prev: the model scans slot INDICES.  Two accepted forms of the source:
+    #  A  raw pointer form: curr += Table_Step; end test `curr > Table_Key(t, nslots-1)` resp. `curr < Table_Key(t, 0)`, hash word read
+    #     in front of the key;
+    #  B  index form: i = Table_Key_Slot(t, curr) = (key - data) / Table_Step  (exact: Table_Key(t,i) = data + i*step + off, 0 <= off < step),
+    #     then `for (i+1 .. nslots-1)` resp. `for (i; i > 0; i--) look at i-1` with Table_Key_Hash / Table_Key.
     b = body(tab, 'Table_Iter_Next')
+    slot = func_body(tab, r'static\s+size_t\s+Table_Key_Slot\s*\([^)]*\)\s*\{')
+    slot_ok = slot is not None and norm(slot) == '{ return ((char*)key - (char*)t->data) / Table_Step(t); }'
+    key_ok = (lambda k: k is not None and norm(k) == '{ return (char*)t->data + i * Table_Step(t) + sizeof(uint64_t) + sizeof(struct Header); }')(
+        func_body(tab, r'static\s+var\s+Table_Key\s*\(struct Table\* t, uint64_t i\)\s*\{'))
     m = b and re.search(r'if\s*\(\s*curr\s*(>=|>)\s*Table_Key\(t,\s*t->nslots-1\)\s*\)\s*\{\s*return\s+Terminal', b)
-    emit('iter_table_next_strict', ('Definition iter_table_next_strict : bool := %s.   (* Table_Iter_Next: curr %s Table_Key(t, nslots-1) *)'
-                                    % ('true' if m.group(1) == '>' else 'false', m.group(1))) if m else None)
+    mB = b and slot_ok and key_ok and re.match(
+        r'\{ struct Table\* t = self; for \(size_t i = Table_Key_Slot\(t, curr\) \+ 1; i < t->nslots(-1)?; i\+\+\) \{ '
+        r'if \(Table_Key_Hash\(t, i\) isnt 0\) \{ return Table_Key\(t, i\); \} \} return Terminal; \}$', norm(b))
+    if m:
+        emit('iter_table_next_strict', 'Definition iter_table_next_strict : bool := %s.   (* Table_Iter_Next: curr %s Table_Key(t, nslots-1) *)'
+             % ('true' if m.group(1) == '>' else 'false', m.group(1)))
+    elif mB:
+        emit('iter_table_next_strict', 'Definition iter_table_next_strict : bool := %s.   (* Table_Iter_Next, index form: i < nslots%s *)'
+             % ('false' if mB.group(1) else 'true', mB.group(1) or ''))
+    else:
+        emit('iter_table_next_strict', None)
     b = body(tab, 'Table_Iter_Prev')
-    emit('iter_shape_Table_Iter_Prev', 'Definition iter_shape_Table_Iter_Prev : bool := true.'
-         if b and re.search(r'if\s*\(\s*curr\s*<\s*Table_Key\(t,\s*0\)\s*\)\s*\{\s*return\s+Terminal', b) else None)
+    okA = b and re.search(r'if\s*\(\s*curr\s*<\s*Table_Key\(t,\s*0\)\s*\)\s*\{\s*return\s+Terminal', b)
+    okB = b and slot_ok and key_ok and norm(b) == ('{ struct Table* t = self; for (size_t i = Table_Key_Slot(t, curr); i > 0; i--) { '
+                                                   'if (Table_Key_Hash(t, i-1) isnt 0) { return Table_Key(t, i-1); } } return Terminal; }')
+    emit('iter_shape_Table_Iter_Prev', 'Definition iter_shape_Table_Iter_Prev : bool := true.' if (okA or okB) else None)
 
     # small cursor functions modelled as written: exact text after whitespace normalisation
     SHAPES = {
@@ -145,16 +377,43 @@ def generate(repo, emit, src, func_body):
         'Tree_Iter_Last': '{ struct Tree* m = self; if (m->nitems is 0) { return Terminal; } var node = m->root; while (*Tree_Right(m, node) isnt NULL) { node = *Tree_Right(m, node); } return Tree_Key(m, node); }',
         'Tree_Iter_Prev': '{ struct Tree* m = self; var node = (char*)curr - sizeof(struct Header) - 3 * sizeof(var); var prnt = Tree_Get_Parent(m, node); if (*Tree_Left(m, node) isnt NULL) { node = *Tree_Left(m, node); while (*Tree_Right(m, node) isnt NULL) { node = *Tree_Right(m, node); } return Tree_Key(m, node); } while (true) { if (prnt is NULL) { return Terminal; } if (node is *Tree_Right(m, prnt)) { return Tree_Key(m, prnt); } if (node is *Tree_Left(m, prnt)) { prnt = Tree_Get_Parent(m, prnt); node = Tree_Get_Parent(m, node); } } return Terminal; }',
     }
+    # second accepted form (same walk, helpers factored out): Tree_Minimum / Tree_Maximum are the leftmost / rightmost
+    # descent loops; the climb `while (prnt isnt NULL and node is right(prnt)) { node = prnt; prnt = parent(prnt); }
+    # return prnt is NULL ? Terminal : prnt` is the original loop (node is always a child of prnt); `m->root is NULL`
+    # is what the model tests (tree_start matches on the empty tree)
+    TREE_HELPERS = {
+        'Tree_Minimum': '{ while (*Tree_Left(m, node) isnt NULL) { node = *Tree_Left(m, node); } return node; }',
+        'Tree_Maximum': '{ while (*Tree_Right(m, node) isnt NULL) { node = *Tree_Right(m, node); } return node; }',
+        'Tree_Node_Of': '{ return (char*)curr - sizeof(struct Header) - 3 * sizeof(var); }',
+    }
+    TREE_SHAPES_B = {
+        'Tree_Iter_Init': '{ struct Tree* m = self; if (m->root is NULL) { return Terminal; } return Tree_Key(m, Tree_Minimum(m, m->root)); }',
+        'Tree_Iter_Next': '{ struct Tree* m = self; var node = Tree_Node_Of(curr); if (*Tree_Right(m, node) isnt NULL) { return Tree_Key(m, Tree_Minimum(m, *Tree_Right(m, node))); } '
+                          'var prnt = Tree_Get_Parent(m, node); while (prnt isnt NULL and node is *Tree_Right(m, prnt)) { node = prnt; prnt = Tree_Get_Parent(m, prnt); } '
+                          'return prnt is NULL ? Terminal : Tree_Key(m, prnt); }',
+        'Tree_Iter_Last': '{ struct Tree* m = self; if (m->root is NULL) { return Terminal; } return Tree_Key(m, Tree_Maximum(m, m->root)); }',
+        'Tree_Iter_Prev': '{ struct Tree* m = self; var node = Tree_Node_Of(curr); if (*Tree_Left(m, node) isnt NULL) { return Tree_Key(m, Tree_Maximum(m, *Tree_Left(m, node))); } '
+                          'var prnt = Tree_Get_Parent(m, node); while (prnt isnt NULL and node is *Tree_Left(m, prnt)) { node = prnt; prnt = Tree_Get_Parent(m, prnt); } '
+                          'return prnt is NULL ? Terminal : Tree_Key(m, prnt); }',
+    }
+    helpers_ok = all((lambda hb: hb is not None and norm(hb) == want)(func_body(tree, r'static\s+var\s+%s\s*\([^)]*\)\s*\{' % h))
+                     for h, want in TREE_HELPERS.items())
     for fn, want in TREE_SHAPES.items():
         b = body(tree, fn)
-        ok = b is not None and norm(b) == want
+        ok = b is not None and (norm(b) == want or (helpers_ok and norm(b) == TREE_SHAPES_B[fn]))
         emit('iter_shape_' + fn, ('Definition iter_shape_%s : bool := true.' % fn) if ok else None)
 
     # Tree orientation: Tree_Set compares cmp(Tree_Key(m, node), key) and goes LEFT when it is < 0
     b = func_body(tree, r'static\s+void\s+Tree_Set\s*\([^)]*\)\s*\{')
-    if b and re.search(r'int\s+c\s*=\s*cmp\(Tree_Key\(m,\s*node\),\s*key\)', b) and re.search(r'if\s*\(c\s*<\s*0\)\s*\{\s*if\s*\(\*Tree_Left\(m,\s*node\)\s+is\s+NULL\)', b):
+    cmpd = b and re.search(r'int\s+c\s*=\s*cmp\(Tree_Key\(m,\s*node\),\s*key\)', b)
+    # form A: if (c < 0) { if (*Tree_Left(m, node) is NULL) ...;  form B: link = c < 0 ? Tree_Left(m, node) : Tree_Right(m, node)
+    left_lt = b and (re.search(r'if\s*\(c\s*<\s*0\)\s*\{\s*if\s*\(\*Tree_Left\(m,\s*node\)\s+is\s+NULL\)', b)
+                     or re.search(r'=\s*c\s*<\s*0\s*\?\s*Tree_Left\(m,\s*node\)\s*:\s*Tree_Right\(m,\s*node\)', b))
+    left_gt = b and (re.search(r'if\s*\(c\s*>\s*0\)\s*\{\s*if\s*\(\*Tree_Left\(m,\s*node\)\s+is\s+NULL\)', b)
+                     or re.search(r'=\s*c\s*>\s*0\s*\?\s*Tree_Left\(m,\s*node\)\s*:\s*Tree_Right\(m,\s*node\)', b))
+    if cmpd and left_lt and not left_gt:
         emit('iter_tree_desc', 'Definition iter_tree_desc : bool := true.   (* keys greater than the node go left: in-order walk is descending *)')
-    elif b and re.search(r'int\s+c\s*=\s*cmp\(Tree_Key\(m,\s*node\),\s*key\)', b) and re.search(r'if\s*\(c\s*>\s*0\)\s*\{\s*if\s*\(\*Tree_Left\(m,\s*node\)\s+is\s+NULL\)', b):
+    elif cmpd and left_gt and not left_lt:
         emit('iter_tree_desc', 'Definition iter_tree_desc : bool := false.')
     else:
         emit('iter_tree_desc', None)
